@@ -160,17 +160,25 @@ def locate_statements():
 
 
 # ------------------------------------------------------------------------------------------------ scheduler
+def _signal():
+    """a binary semaphore, initially 0: a raw lock held from the start (threading.Semaphore is ~5x slower)"""
+    l = threading.Lock()
+    l.acquire()
+    return l
+
+
 class LThread:
     def __init__(self, tid, fn):
         self.tid = tid
         self.fn = fn
-        self.go = threading.Semaphore(0)
+        self.go = _signal()
         self.state = "new"          # new | line | blocked | done
         self.kind = None            # blocked: condlock | cond | poll | sleep
         self.cond = None
         self.deadline = None
         self.phase = None           # where the thread is in serve's lock protocol (for labelling condition ops)
         self.hand = None            # id of the frame it received last
+        self.acted = 1              # shared actions logged since the thread last parked (1: park at the first line)
         self.pending = {}           # frame -> (label, when) whose observation is completed at the frame's next event
         self.exc = None
         self.thread = None
@@ -198,12 +206,13 @@ class VClock:
 class Sched:
     STEP_TIMEOUT = 20.0
 
-    def __init__(self, marks, targets):
+    def __init__(self, marks, targets, park_all=False):
+        self.park_all = park_all
         self.marks = marks
         self.targets = targets
         self.threads = {}
         self.order = []
-        self.back = threading.Semaphore(0)
+        self.back = _signal()
         self.local = threading.local()
         self.now = 0
         self.trace = []             # tokens of the model's alphabet, in execution order
@@ -220,10 +229,13 @@ class Sched:
         tok = "run:%d:%s" % (th.tid, label) + ("" if obs is None else ":" + str(obs))
         self.events.append((len(self.trace), th.tid, label, obs, self.now))
         self.trace.append(tok)
+        th.acted += 1
 
-    def log_env(self, tok, label, obs=None):
-        self.events.append((len(self.trace), None, label, obs, self.now))
+    def log_env(self, tok, label, obs=None, th=None):
+        self.events.append((len(self.trace), None if th is None else th.tid, label, obs, self.now))
         self.trace.append(tok)
+        if th is not None:
+            th.acted += 1
 
     def _yield(self, th):
         self.back.release()
@@ -236,6 +248,7 @@ class Sched:
         if self.aborting:
             raise Abort()
         th.state, th.kind, th.cond, th.deadline = "blocked", kind, cond, deadline
+        th.acted = 0
         self._yield(th)
         th.state, th.kind, th.cond, th.deadline = "run", None, None, None
 
@@ -253,10 +266,14 @@ class Sched:
             if pend is not None:
                 self._complete(th, frame, pend, event, frame.f_lineno)
         if event == "line":
-            th.state = "line"
-            th.at = (frame.f_code.co_name, frame.f_lineno)
-            self._yield(th)
-            th.state = "run"
+            # reduced parking: a thread that has logged no shared action since it last parked need not park
+            # again (the lines in between touched thread-local state only); `park_all` parks on every line
+            if self.park_all or th.acted:
+                th.acted = 0
+                th.state = "line"
+                th.at = (frame.f_code.co_name, frame.f_lineno)
+                self._yield(th)
+                th.state = "run"
             mark = self.marks.get(frame.f_code, {}).get(frame.f_lineno)
             if mark is not None:
                 label, when = mark
@@ -299,7 +316,7 @@ class Sched:
                 if inside:
                     self.log(th, "b0")
                 else:
-                    self.log_env("stop:%d" % th.tid, "stop", th.tid)
+                    self.log_env("stop:%d" % th.tid, "stop", th.tid, th)
         elif isinstance(when, tuple) and when[0] == "local":
             t = frame.f_locals.get(when[1])
             self.log(th, "s0", fmt_t(t.tmax if t.finite else None) if isinstance(t, Timeout) else "?")
@@ -323,7 +340,8 @@ class Sched:
         finally:
             sys.settrace(None)
             th.state = "done"
-            self.back.release()
+            if not self.aborting:
+                self.back.release()
 
     # ---- driver side
     def spawn(self, tid, fn, is_bg=False):
@@ -334,7 +352,7 @@ class Sched:
         self.order.append(tid)
         th.thread.start()
         th.go.release()
-        if not self.back.acquire(timeout=self.STEP_TIMEOUT):
+        if not self.back.acquire(True, self.STEP_TIMEOUT):
             raise HarnessError("thread %r did not reach its first park" % tid)
         return th
 
@@ -348,7 +366,7 @@ class Sched:
     def grant(self, th):
         self.steps += 1
         th.go.release()
-        if not self.back.acquire(timeout=self.STEP_TIMEOUT):
+        if not self.back.acquire(True, self.STEP_TIMEOUT):
             raise HarnessError("thread %r did not come back (blocked outside the scheduler?) at %r" % (th.tid, getattr(th, "at", None)))
 
     def next_deadline(self):
@@ -570,7 +588,7 @@ class LoggingCounter:
         if th is not None and not self.sched.aborting:
             tmo = self.run.current_tmo.get(th.tid)
             self.run.issued.append((th.tid, v))
-            self.sched.log_env("call:%d:%s:%d" % (th.tid, "n" if tmo is None else tmo, v), "call", (th.tid, v))
+            self.sched.log_env("call:%d:%s:%d" % (th.tid, "n" if tmo is None else tmo, v), "call", (th.tid, v), th)
         return v
 
 
@@ -621,9 +639,9 @@ class Run:
     HORIZON = 40           # virtual time units
     MAX_STEPS = 3000
 
-    def __init__(self, case, marks, targets):
+    def __init__(self, case, marks, targets, park_all=False):
         self.case = case
-        self.sched = Sched(marks, targets)
+        self.sched = Sched(marks, targets, park_all)
         self.sched.run = self
         self.outstanding = []       # seqs the peer may answer
         self.sent_requests = []     # (tid, seq)
@@ -899,12 +917,12 @@ class RandomChooser:
         return self.rng.choice(opts)
 
 
-def run_case(case, chooser, env=None):
+def run_case(case, chooser, env=None, park_all=False):
     marks, targets, _missing = env or locate_statements()
-    return Run(case, marks, targets).execute(chooser)
+    return Run(case, marks, targets, park_all).execute(chooser)
 
 
-def dfs(case, bound, env, max_runs=None, deadline=None, visit=None):
+def dfs(case, bound, env, max_runs=None, deadline=None, visit=None, park_all=False):
     """all schedules of `case` with at most `bound` preemptions (a preemption = choosing something else while the
     thread that ran last is still enabled; peer answers and early ticks count when they pre-empt).  Stateless:
     every schedule is executed from scratch by replaying its choice prefix.  Returns (runs, complete?)."""
@@ -916,7 +934,7 @@ def dfs(case, bound, env, max_runs=None, deadline=None, visit=None):
             return runs, False
         prefix = stack.pop()
         ch = PrefixChooser(prefix)
-        run = run_case(case, ch, env)
+        run = run_case(case, ch, env, park_all)
         runs += 1
         if visit is not None:
             visit(run)
